@@ -228,6 +228,7 @@ let parse_aop (s : astate) (l : string) : aop =
   | ["repoll"; k] -> ARepoll (stage_of k)
   | ["dropfut"; k] -> ADropFut (stage_of k)
   | ["task"; n] -> ASetTask (nat_of_int (int_of_string n))
+  | ["rewrap"; k] -> ARewrap (stage_of k)
   | _ -> let o = parse_op l in (match future_of o with Some _ -> APoll o | None -> ADirect o)
 
 let aobs (s : astate) : string =
@@ -593,7 +594,8 @@ let gen_arand seed count lo hi =
                 | 2 -> Printf.sprintf "goback %s %d" (sname k) (rnd (off + 1))
                 | 3 -> "sync " ^ sname k
                 | _ -> "attach " ^ sname k)
-             else match rnd 12 with
+             else match rnd 13 with
+               | 12 -> "rewrap " ^ sname k       (* into_sync, then from_sync: the same iterator in a fresh wrapper *)
                | 0 -> "avail " ^ sname k
                | 1 -> Printf.sprintf "adv %s %d" (sname k) (rnd (a + 1))
                | 2 -> if k = P then "avail P" else "reset " ^ sname k
